@@ -216,7 +216,7 @@ func c22RunReader(tb ev.TB, rec *ev.Rec, c *c22RCase, gen string) {
 			}
 		case "UnreadByte":
 			// valid use only: directly after a successful ReadByte / Read / ReadRune (what textproto does)
-			if prevRead != "ReadByte" && prevRead != "Read" && prevRead != "ReadRune" {
+			if prevRead != "ReadByte" && prevRead != "Read" && prevRead != "ReadRune" && prevRead != "Line" {
 				rec.Add("reader_ops_skipped_not_enabled", 1)
 				continue
 			}
@@ -286,6 +286,9 @@ func c22RunReader(tb ev.TB, rec *ev.Rec, c *c22RCase, gen string) {
 				sawEOF = true
 			}
 			pos += len(l1)
+			if len(l1) > 0 && op.Op != "ReadString" {
+				lastRead = "Line"
+			}
 		case "ReadLine":
 			l1, p1, e1 := br.ReadLine()
 			l1 = append([]byte(nil), l1...)
@@ -294,8 +297,17 @@ func c22RunReader(tb ev.TB, rec *ev.Rec, c *c22RCase, gen string) {
 			cmpErr(e1, e2)
 			if !bytes.Equal(l1, next(len(l1))) {
 				bad("stream-corrupt-ReadLine", "ReadLine returned %x, stream continues %x", l1, next(len(l1)))
-			} else if !bytes.Equal(l1, l2) || p1 != p2 {
+			} else if !bytes.Equal(l1, l2) {
 				bad("differs-from-std-ReadLine", "ReadLine: bfe (%x,%v), std (%x,%v)", l1, p1, l2, p2)
+			} else if p1 != p2 {
+				// std changed since the Go 1.2 code bfe_bufio derives from: when the source delivers io.EOF
+				// together with the bytes that fill the buffer, old bufio reports "buffer full" (isPrefix) and EOF
+				// on the next call, new bufio reports the pending EOF first. Both deliver the same bytes.
+				if c.EOFData && len(l1) >= c.Buf-1 && pos+len(l1) >= len(S)-1 {
+					rec.Class("r-isprefix-at-eof-not-compared")
+				} else {
+					bad("differs-from-std-ReadLine", "ReadLine: bfe (%x,%v), std (%x,%v)", l1, p1, l2, p2)
+				}
 			}
 			if e1 != nil {
 				sawEOF = true
